@@ -48,6 +48,17 @@ CHECKS = {
    note=COMMON_NOTE + "ASCII strings; parse(render v) = conv v tied bounded-exhaustively, not by a theorem; known findings F10a/F10b in known_findings.json are the "
         "complement of the partial theorem's hypotheses.",
    technique="Lean 4 proof (induction, omega, decide witnesses) + bounded-exhaustive model/implementation correspondence"),
+ "C17": dict(
+   text="Lean theorem C17_closed: for every schema, class, budget and byte string, the model of from_cbor (all node kinds of common.py and the special classes) "
+        "yields a node, ValueError or SUITError - never an internal error - when the four guards are in place (mutual induction over the interpreter, no bound on "
+        "size or nesting); C17_guards_all ties the guards to the running code through probe inputs re-executed by the translator on every run; C17_parse_clean is the "
+        "corollary for the extracted schema; C17_validate / C17_empty for the length pre-validation; C17_needs_* are kernel-checked witnesses that each guard is "
+        "necessary (the fixed findings F5a-d). Partial: termination within time/memory proportional to the input and the interpreter's stack limit are runtime "
+        "behaviour - monitored by the harness (wall time per input against a linear budget, nesting sweep to 400 levels), not proved.",
+   design="4 C17",
+   note=COMMON_NOTE + "cbor2.loads is modelled on definite-length items without floats / exotic simple values / semantic tags (inputs outside are checked "
+        "directly on the implementation only). Runtime monitors are not theorems.",
+   technique="Lean 4 proof (mutual induction over a generic interpreter, decide for generated flags) + type-confusion correspondence sweep"),
 }
 
 NA_REASON = "check not yet built in this revision (work in progress; DESIGN.md section 4 describes the planned model and theorems)"
